@@ -68,7 +68,8 @@ def rule_cover(ctx: Ctx) -> RuleResult:
             rr.add(finding("COVER", "widget.monitored_list.MonitoredFocusList", None, f"list.{name} can remove or move the focused item but MonitoredFocusList does not override it: the focus index is left pointing at a different item", construct=f"focus mutator {name} not overridden", file=mfl.relpath))
             continue
         stores = [n for n in fo.own_nodes() if isinstance(n, ast.Assign) and any(isinstance(t, ast.Attribute) and t.attr in ("focus", "_focus") and isinstance(t.value, ast.Name) and t.value.id == fo.self_name for t in n.targets)]
-        if not stores:
+        delegates = [c for c in fo.own_nodes() if isinstance(c, ast.Call) and isinstance(c.func, ast.Attribute) and isinstance(c.func.value, ast.Name) and c.func.value.id == fo.self_name and c.func.attr in mfl.methods and c.func.attr in muts and c.func.attr != name]
+        if not stores and not delegates:
             rr.add(finding("COVER", fo, fo.node, f"MonitoredFocusList.{name} never updates the focus", construct=f"focus mutator {name} without focus store"))
     return rr
 
@@ -87,6 +88,16 @@ def rule_order(ctx: Ctx) -> RuleResult:
         sup = [c for c in _super_calls(fo) if c.func.attr == name]
         ident = f"MonitoredFocusList.{name}"
         rr.inst(ident, True, {"override": name, "super_calls": len(sup)} if len(rr.samples) < 5 else None)
+        # an override may delegate the whole job to another override of this class (`__iadd__`: self.extend(items);
+        # return self): exactly one such call on every path, passing the override's own argument, and no super call
+        deleg = [c for c in fo.own_nodes() if isinstance(c, ast.Call) and isinstance(c.func, ast.Attribute) and isinstance(c.func.value, ast.Name) and c.func.value.id == fo.self_name and c.func.attr in mfl.methods and c.func.attr in list_mutators() and c.func.attr != name]
+        if not sup and len(deleg) == 1:
+            d = deleg[0]
+            dn = nodes_where(cfg, lambda x: x is d)
+            params = [a.arg for a in fo.node.args.args[1:]]
+            if [ast.unparse(a) for a in d.args] != params or not cfg.must_pass(cfg.entry, dn, ends=[cfg.exit]):
+                rr.add(finding("ORDER", fo, d, f"{name}() delegates to self.{d.func.attr}() but not with its own arguments on every path", construct=f"{name}: delegation incomplete"))
+            continue
         if len(sup) != 1:
             rr.add(finding("ORDER", fo, fo.node, f"{len(sup)} calls to super().{name}() in the override (exactly one expected): the list is edited twice or not at all, and the modified callback fires a different number of times", construct=f"{name}: {len(sup)} super calls"))
             continue
@@ -492,12 +503,61 @@ def rule_focus_writers(ctx: Ctx) -> RuleResult:
     return rr
 
 
+def rule_list_semantics(ctx: Ctx) -> RuleResult:
+    """Three necessary conditions of 'behaves as a Python list whose focus follows its item':
+    (a) a mutator that accepts 'any iterable' in list (extend, slice assignment) materialises its argument with
+        list(...) before len() is taken of it (a one-pass iterator has no len());
+    (b) sort() finds the focus item again by *identity* - index() compares by equality and lands on the first
+        equal item;
+    (c) _adjust_focus_on_contents_modified returns 0 for an empty list before it shifts the stored index: the
+        index of an empty list is a placeholder, not an item that new items are inserted in front of."""
+    from ..rules.defuse import DefUse
+
+    p = ctx.p
+    rr = RuleResult("KIND", "C16.10", "extend / slice assignment materialise their iterable; sort() re-finds the focus by identity; an empty list's placeholder index is not shifted", floor=4)
+    mfl = p.cls(f"{ML}.MonitoredFocusList")
+    # (a)
+    for name in ("extend", "__setitem__"):
+        fo = mfl.methods[name]
+        du = DefUse(fo)
+        prm = fo.params[-1]
+        adj = [c for c in fo.own_nodes() if isinstance(c, ast.Call) and isinstance(c.func, ast.Attribute) and c.func.attr == "_adjust_focus_on_contents_modified" and len(c.args) == 2 and isinstance(c.args[1], ast.Name) and c.args[1].id == prm]
+        for c in adj:
+            at = du.node_of(c)
+            defs = du.reaching(prm, at)
+            ok = bool(defs) and all(isinstance(v, ast.Call) and isinstance(v.func, ast.Name) and v.func.id in ("list", "tuple") for v, how, dn in defs if how != "param") and any(how != "param" for v, how, dn in defs) and not any(how == "param" for v, how, dn in defs)
+            rr.inst(f"{name}: iterable materialised", True, {"mutator": name, "materialised": ok})
+            if not ok:
+                rr.add(finding("KIND", fo, c, f"{name}() hands its argument `{prm}` to _adjust_focus_on_contents_modified (which takes len() of it) as it came in: list accepts any iterable here, a generator or iterator raises TypeError", construct=f"{name}: iterable not materialised"))
+    # (b)
+    so = mfl.methods["sort"]
+    stores = [n for n in so.own_nodes() if isinstance(n, ast.Assign) and any(isinstance(t, ast.Attribute) and t.attr == "focus" for t in n.targets)]
+    rr.inst("sort: focus by identity", True, {"stores": [norm(n, 70) for n in stores]})
+    for n in stores:
+        if any(isinstance(c, ast.Call) and isinstance(c.func, ast.Attribute) and c.func.attr == "index" for c in ast.walk(n.value)) or not any(isinstance(c, ast.Compare) and isinstance(c.ops[0], ast.Is) for c in ast.walk(n.value)):
+            rr.add(finding("KIND", so, n, f"`{norm(n, 70)}` looks the focus item up by equality: with equal items (True and 1, 1 and 1.0, equal strings) the focus moves to the first equal item although the focused object is still in the list", construct="sort re-finds the focus by equality"))
+    # (c)
+    ad = mfl.methods["_adjust_focus_on_contents_modified"]
+    cfg = cfg_of(ad)
+    empties = [t for t in cfg.nodes if t.kind == "test" and ast.unparse(t.ast) in (f"not {ad.self_name}", f"len({ad.self_name}) == 0")]
+    reads = [n for n in cfg.nodes if isinstance(n.ast, ast.Assign) and isinstance(n.ast.value, ast.Attribute) and n.ast.value.attr == "_focus"]
+    rr.inst("empty list handled before the stored index is read", True, {"empty_tests": len(empties), "reads": len(reads)})
+    ok = bool(empties) and all(any(r_ not in cfg.reachable_from_edges([(t, "T")]) and cfg.dominated(r_, [t]) for t in empties) for r_ in reads)
+    if not ok:
+        rr.add(finding("GUARD", ad, ad.node, "_adjust_focus_on_contents_modified shifts the stored index also when the list is empty: that index (0) is a placeholder, so filling an empty list with extend() or slice assignment leaves the focus on the *last* new item while += gives the first", construct="empty list not handled before shifting the stored index"))
+    return rr
+
+
 def run(ctx: Ctx):
-    return [rule_cover(ctx), rule_order(ctx), rule_wrapper(ctx), rule_focus_setter(ctx), rule_slice_triple(ctx), rule_slice_norm(ctx), rule_norm_simultaneous(ctx), rule_index_slice_idiom(ctx), rule_focus_writers(ctx)]
+    return [rule_cover(ctx), rule_order(ctx), rule_wrapper(ctx), rule_focus_setter(ctx), rule_slice_triple(ctx), rule_slice_norm(ctx), rule_norm_simultaneous(ctx), rule_index_slice_idiom(ctx), rule_focus_writers(ctx), rule_list_semantics(ctx)]
 
 
 _F = "urwid/widget/monitored_list.py"
 MUTANTS = [
+    Mut("iadd-bypasses-validation", _F, "MonitoredFocusList.__iadd__", "        self.extend(items)\n        return self", "        return super().__iadd__(items)", ("COVER|widget.monitored_list.MonitoredFocusList.__iadd__", "ORDER|widget.monitored_list.MonitoredFocusList.__iadd__")),
+    Mut("sort-refinds-focus-by-equality", _F, "MonitoredFocusList.sort", "self.focus = next(i for i, item in enumerate(self) if item is value)", "self.focus = self.index(value)", "KIND|widget.monitored_list.MonitoredFocusList.sort"),
+    Mut("extend-needs-len", _F, "MonitoredFocusList.extend", "        items = list(items)  # any iterable may be given, also a one-pass iterator\n", "", "KIND|widget.monitored_list.MonitoredFocusList.extend"),
+    Mut("empty-list-focus-shifted", _F, "MonitoredFocusList._adjust_focus_on_contents_modified", "        if not self:\n            # nothing had the focus: the first new item gets it\n            return 0\n\n", "", "GUARD|widget.monitored_list.MonitoredFocusList._adjust_focus_on_contents_modified"),
     Mut("reverse-bypasses-focus-setter", _F, "MonitoredFocusList.reverse", "        self.focus = max(0, len(self) - self._focus - 1)", "        self._focus = max(0, len(self) - self._focus - 1)", "WRITER|widget.monitored_list.MonitoredFocusList.reverse"),
     Mut("clear-not-wrapped", _F, "MonitoredList.clear", "    @_call_modified\n    def clear(self)", "    def clear(self)", "COVER|widget.monitored_list.MonitoredList.clear", nth=0),
     Mut("focuslist-remove-not-overridden", _F, None, "    def remove(self, value: _T) -> None:\n        \"\"\"", "    def _remove_unused(self, value: _T) -> None:\n        \"\"\"", "COVER|widget.monitored_list.MonitoredFocusList"),
